@@ -10,8 +10,8 @@
    since bbcb995: a timer expiry needs a pending timer, which is what ETimeout means in [step]).
    [raw_timeout] is also what the exported method Timeout() of HEAD does (it has no caller in /repo outside
    tests; the correspondence check drives it as op Y).
-   One finding is open on /repo HEAD, in the session layer: lcp-echo-reply-phase (C05_session_echo_reply_refuted,
-   fixes/C05_lcp_echo_reply_in_opened.patch); every other _refuted theorem is about code before the named commit.
+   One finding is open on /repo HEAD: lns-lcp-down-ncp-down (internal/l2tp onLCPDown, C05_session_lns_lcp_down_refuted,
+   fixes/C05_lns_lcp_down_ncp_down.patch); every other _refuted theorem is about code before the named commit.
    [rfc1661] is the table of RFC 1661 section 4.1 transcribed independently (Model.v part 2), and
    Rfc2.v a second transcription in the RFC's own row layout.
    All theorems hold for every configuration c = (maxConf, maxTerm, is-LCP), every value of the
@@ -487,10 +487,11 @@ Print Assumptions C05_system_nonvacuous.
 
 (* ---- the session layer above the dispatcher: internal/pppoe/session.go (Sess.v) ----------------------- *)
 
-(* this-layer-down of LCP (onLCPDown): both NCP automata receive Down - they end in Initial or Starting -
+(* this-layer-down of LCP (onLCPDown; internal/pppoe, and internal/l2tp once repaired): both NCP automata receive Down - they end in Initial or Starting -
    and the phase falls back to Establish; the LCP automaton itself is not touched by its own callback. *)
 Theorem C05_session_lcp_down_takes_ncps_down :
   forall c v s,
+  (lns c = false \/ lns_down_fixed c = true) ->
   let s' := fst (lcp_callback c v Tld s) in
   ph s' = PhEstablish /\
   lower_down (st (s_ipcp (sy s'))) = true /\ lower_down (st (s_ip6 (sy s'))) = true /\
@@ -509,15 +510,15 @@ Theorem C05_session_echo_reply :
 Proof. exact echo_reply_repaired. Qed.
 Print Assumptions C05_session_echo_reply.
 
-(* Open finding lcp-echo-reply-phase (/repo HEAD): the reply depends on the phase; after LCP has opened and
-   while authentication is pending an Echo-Request carrying a Magic-Number gets no Echo-Reply. *)
-Theorem C05_session_echo_reply_refuted :
+(* Historical (fixed in 1b41d89, lcp-echo-reply-phase): the reply depended on the phase; after LCP had opened
+   and while authentication was pending an Echo-Request carrying a Magic-Number got no Echo-Reply. *)
+Theorem C05_session_echo_reply_before_1b41d89_refuted :
   let s := fst (sess_run scfg_head Repaired (sess_init (head_pick 0) (head_pick 0) (head_pick 0)) lcp_bringup) in
   st (s_lcp (sy s)) = Opened /\ ph s = PhAuthenticate /\
   snd (sess_step scfg_head Repaired s echo_req) = [] /\
   snd (sess_step scfg_rep Repaired s echo_req) = [OEchoReply 5 [170]].
 Proof. exact echo_reply_refuted. Qed.
-Print Assumptions C05_session_echo_reply_refuted.
+Print Assumptions C05_session_echo_reply_before_1b41d89_refuted.
 
 Example C05_session_nonvacuous :
   let ops := lcp_bringup ++ [XAuth true; XFrame ProtoIPCP [1; 7; 0; 10; 3; 6; 10; 55; 0; 2] CGood;
@@ -529,3 +530,19 @@ Example C05_session_nonvacuous :
   st (s_ip6 (sy s')) = Starting /\ ipcpOpen s' = false /\ linkEnded s' = true.
 Proof. exact session_nonvac. Qed.
 Print Assumptions C05_session_nonvacuous.
+
+(* Open finding lns-lcp-down-ncp-down (/repo HEAD, internal/l2tp onLCPDown): the NCP automata of an LNS session do
+   not get the Down event when LCP leaves Opened; after the peer renegotiates LCP, IPCP is still Opened (and
+   ipcpOpen set) while LCP is in Ack-Sent and the phase is Establish.  Repaired: IPCP goes to Starting. *)
+Theorem C05_session_lns_lcp_down_refuted :
+  let peer_renegotiates := XFrame ProtoLCP [1; 8; 0; 8; 1; 4; 5; 212] CGood in
+  let s := fst (sess_run scfg_lns_head Repaired (sess_init (head_pick 0) (head_pick 0) (head_pick 0)) lns_open_ops) in
+  let s' := fst (sess_step scfg_lns_head Repaired s peer_renegotiates) in
+  ph s = PhOpen /\ st (s_ipcp (sy s)) = Opened /\
+  st (s_lcp (sy s')) = AckSent /\ ph s' = PhEstablish /\
+  st (s_ipcp (sy s')) = Opened /\ ipcpOpen s' = true /\
+  (let r := fst (sess_run scfg_lns_rep Repaired (sess_init (head_pick 0) (head_pick 0) (head_pick 0))
+                   (lns_open_ops ++ [peer_renegotiates])) in
+   st (s_ipcp (sy r)) = Starting /\ ipcpOpen r = false /\ ph r = PhEstablish).
+Proof. exact lns_lcp_down_refuted. Qed.
+Print Assumptions C05_session_lns_lcp_down_refuted.
